@@ -39,6 +39,13 @@ func main() {
 				fn.WriteTo(os.Stdout)
 			}
 		}
+	case "lockgraph":
+		eng, err := loadEngine("/repo", "/verif")
+		if err != nil {
+			fmt.Fprintln(os.Stderr, err)
+			os.Exit(2)
+		}
+		eng.lockGraph()
 	case "verify":
 		fs := flag.NewFlagSet("verify", flag.ExitOnError)
 		props := fs.String("props", "", "comma-separated property ids (clauses tagged with them plus untagged ones)")
